@@ -5,6 +5,7 @@ From Coq Require Import List NArith String Bool Lia.
 From V Require Import Base.Strings Base.Result Model.Registry Model.Settings Model.Subst
   Model.TypePath Model.Derives Model.Generate Model.Equal Model.Reach
   Proofs.GenProofs Proofs.CollectProofs.
+From V Require Import Proofs.SynKey.
 Import ListNotations.
 Open Scope string_scope. Open Scope list_scope.
 
@@ -97,11 +98,7 @@ Qed.
 
 (** ** keys of the registry entries *)
 Lemma syn_key_ok p k : syn_type_path_key p = Ok k -> p <> [] /\ k = path_key p.
-Proof.
-  unfold syn_type_path_key. destruct p as [|a p]; [discriminate|].
-  destruct (forallb ident_okb (a :: p)); [|discriminate].
-  intros H; inversion H. split; [discriminate|reflexivity].
-Qed.
+Proof. exact (syn_key_ok_eq p k). Qed.
 
 Lemma key_entry_ok id t ke :
   key_entry (id, t) = Ok ke ->
